@@ -412,6 +412,46 @@ pub fn gen_memops(w: &mut impl Write, thorough: bool, seed: u64) {
             writeln!(w, "exec tag=memops prog={} mem={} mbuff={} patch={}:{}:0 budget=300", hex(&p), hex(&mem), hex(mb), ps, if kind == 1 { "mbuff" } else { "mem" }).unwrap();
         } } }
     }
+    // displacement-encoding boundaries (disp8 / disp32 / none, and the rbp/r13 special case): every access instruction with
+    // offsets around -129..-127, -1..1, 126..129, 255/256 from a pointer into the middle of a 600-byte packet (pattern not
+    // 256-periodic), through base registers that map to rdi, rbx, r13, r15 and rbp(r10 is the stack: negative offsets only);
+    // ldabs / ldind immediates around the same boundaries
+    let big: Vec<u8> = (0..600usize).map(|i| ((i * 7 + i / 256 * 13 + 5) % 251) as u8 | 1).collect();
+    let offs: [i16; 16] = [-256, -255, -130, -129, -128, -127, -1, 0, 1, 126, 127, 128, 129, 130, 255, 256];
+    for &(ldx, st, stx, wd) in &widths { for base in [1u8, 6, 7, 9] { for &off in &offs { for vreg in [0u8, 3, 8] {
+        if !thorough && (base as i16 + off + vreg as i16).rem_euclid(2) != 0 && !(126..=129).contains(&off) && !(-129..=-127).contains(&off) { continue; }
+        let v = r.next();
+        let mut p = vec![]; init_regs(&mut p);
+        p.extend(lddw(base, 0)); let patch_slot = p.len() / 8 - 2;
+        if vreg != base { p.extend(lddw(vreg, v)); }
+        let d2 = (vreg + 1) % 10; let d2 = if d2 == base { (d2 + 1) % 10 } else { d2 };
+        p.extend(ins(ldx, d2, base, off, 0));                    // load the original bytes
+        p.extend(ins(stx, base, vreg, off, 0));                  // overwrite them from a register
+        p.extend(ins(st, base, 0, off.wrapping_add(16), v as i32));   // and an immediate store 16 bytes further
+        if wd >= 4 { p.extend(ins(if wd == 4 { 0xc3 } else { 0xdb }, base, vreg, off.wrapping_sub(8 * (wd as i16)) / (wd as i16) * (wd as i16), 0)); }
+        p.extend(ins(0xb7, base, 0, 0, 0));
+        fold_exit(&mut p);
+        writeln!(w, "exec tag=memops prog={} mem={} mbuff=- patch={}:mem:304 budget=300", hex(&p), hex(&big), patch_slot).unwrap();
+    } } } }
+    for &(ldx, st, stx, wd) in &widths { for &off in &[-130i16, -129, -128, -127, -126, -8, -255, -256, -257, -512] { for vreg in [0u8, 4] {
+        if (-off) < wd as i16 { continue; }
+        let v = r.next();
+        let mut p = vec![]; init_regs(&mut p); p.extend(lddw(vreg, v));
+        p.extend(ins(stx, 10, vreg, off, 0)); p.extend(ins(ldx, 2, 10, off, 0));
+        if off <= -24 { p.extend(ins(st, 10, 0, off + 16, v as i32)); p.extend(ins(ldx, 3, 10, off + 16, 0)); }
+        fold_exit(&mut p);
+        line(w, "memops", &p, &mem, &[], "budget=300");
+    } } }
+    for (wi, &(labs, lind)) in [(0x30u8, 0x50u8), (0x28, 0x48), (0x20, 0x40), (0x38, 0x58)].iter().enumerate() { let _ = wi;
+        for imm in [126i32, 127, 128, 129, 130, 255, 256, 257, 500] {
+            let mut p = vec![]; init_regs(&mut p); p.extend(ins(labs, 0, 0, 0, imm)); fold_exit(&mut p);
+            line(w, "memops", &p, &big, &[], "budget=300");
+            for sreg in [1u8, 7, 9] { for idx in [0u64, 3, 40] {
+                let mut p = vec![]; init_regs(&mut p); p.extend(lddw(sreg, idx)); p.extend(ins(lind, 0, sreg, 0, imm)); fold_exit(&mut p);
+                line(w, "memops", &p, &big, &[], "budget=300");
+            } }
+        }
+    }
 }
 
 /// random structured programs on packet / metadata inputs, with helpers and local calls
@@ -706,6 +746,46 @@ pub fn gen_engines(w: &mut impl Write, thorough: bool, seed: u64) {
             p.extend(ins(opc, 0, 3, 0, imm)); p.extend(EXIT);
             writeln!(w, "exec tag=context prog={} mem=- mbuff=- budget=300 engines=jit,clif kind={} fixoff=0:8", hex(&p), kind).unwrap();
         } } } }
+    // (3c) memory coherence: load - store to the same bytes - load again, for every pairing of the three ways to read packet
+    //      bytes (ldabs, ldind, ldx through a pointer) with the three ways to write them (st, stx, xadd); same on the stack.
+    //      A compiler that forwards the first load's value to the second one (alias analysis) returns stale data.
+    { let mem = pattern(32, 29);
+      for (wi, &wd) in [1usize, 2, 4, 8].iter().enumerate() {
+        let (labs, lind, ldx, st, stx) = [(0x30u8, 0x50u8, 0x71u8, 0x72u8, 0x73u8), (0x28, 0x48, 0x69, 0x6a, 0x6b), (0x20, 0x40, 0x61, 0x62, 0x63), (0x38, 0x58, 0x79, 0x7a, 0x7b)][wi];
+        for k in [0i32, 8] { for l1 in 0..3 { for l2 in 0..3 { for sk in 0..3 {
+            if sk == 2 && wd < 4 { continue; }
+            let mut p = vec![];
+            p.extend(lddw(6, 0)); let ps = p.len() / 8 - 2;
+            p.extend(lddw(9, 0x0101_0101_0101_0101u64.wrapping_mul(0x5a + wd as u64)));
+            p.extend(ins(0xb7, 5, 0, 0, k));
+            let load = |p: &mut Vec<u8>, how: i32, into: u8| { match how {
+                0 => { p.extend(ins(labs, 0, 0, 0, k)); p.extend(ins(0xbf, into, 0, 0, 0)); }
+                1 => { p.extend(ins(lind, 0, 5, 0, 0)); p.extend(ins(0xbf, into, 0, 0, 0)); }
+                _ => { p.extend(ins(ldx, into, 6, k as i16, 0)); } } };
+            load(&mut p, l1, 7);
+            match sk { 0 => p.extend(ins(st, 6, 0, k as i16, 0x33445566)), 1 => p.extend(ins(stx, 6, 9, k as i16, 0)),
+                       _ => p.extend(ins(if wd == 4 { 0xc3 } else { 0xdb }, 6, 9, k as i16, 0)) }
+            load(&mut p, l2, 8);
+            p.extend(ins(0xbf, 0, 7, 0, 0)); p.extend(ins(0x27, 0, 0, 0, 31)); p.extend(ins(0x0f, 0, 8, 0, 0)); p.extend(EXIT);
+            for kind in ["mbuff", "raw", "fixed"] {
+                writeln!(w, "exec tag=coherence prog={} mem={} mbuff=- patch={}:mem:0 budget=300 engines=jit,clif kind={} fixoff=0:8", hex(&p), hex(&mem), ps, kind).unwrap();
+            }
+        } } } }
+        // the same on the stack: ldx / st / stx / xadd through r10 and through a copy of it
+        for sk in 0..3 { if sk == 2 && wd < 4 { continue; }
+            let mut p = vec![];
+            p.extend(lddw(9, 0x0101_0101_0101_0101u64.wrapping_mul(0x21 + wd as u64)));
+            p.extend(ins(0x7b, 10, 9, -16, 0)); p.extend(ins(0xbf, 6, 10, 0, 0));
+            p.extend(ins(ldx, 7, 10, -16, 0));
+            match sk { 0 => p.extend(ins(st, 6, 0, -16, 0x33445566)), 1 => { p.extend(ins(0x07, 9, 0, 0, 7)); p.extend(ins(stx, 6, 9, -16, 0)) }
+                       _ => p.extend(ins(if wd == 4 { 0xc3 } else { 0xdb }, 6, 9, -16, 0)) }
+            p.extend(ins(ldx, 8, 10, -16, 0));
+            p.extend(ins(0xb7, 6, 0, 0, 0));
+            p.extend(ins(0xbf, 0, 7, 0, 0)); p.extend(ins(0x27, 0, 0, 0, 31)); p.extend(ins(0x0f, 0, 8, 0, 0)); p.extend(EXIT);
+            writeln!(w, "exec tag=coherence prog={} mem=- mbuff=- budget=300 engines=jit,clif kind=mbuff", hex(&p)).unwrap();
+        }
+      }
+    }
     // (4) helper contract (C08): argument order, r6..r9 preserved, ldabs after a helper call, calls inside local functions at depth 0..3, unknown ids
     for depth in 0..4usize { for id in [0u32, 1, 0x7fff_ffff, 0x8000_0000, 0xffff_ffff, 3] { for reg_ok in [true, false] {
         let mut s: Vec<[u8; 8]> = vec![];
